@@ -203,7 +203,28 @@ class Check:
     def merge(self, part):
         self.total.merge(part)
 
-    def finish(self):
+    def confirm(self, viols, run_case):
+        """Determinism rule (DESIGN §8): a violation is reported only if re-running exactly that case reproduces a
+        violation; a non-reproducing one is a harness error (exit 2), never a VIOLATION line."""
+        confirmed, flaky = [], []
+        for k, v in enumerate(viols):
+            if run_case is None or k >= 5 or not isinstance(v.get("case"), dict) or v["case"].get("kind") in ("hashseed", "multipool"):
+                confirmed.append(v)
+                continue
+            ok = False
+            for attempt in range(2):
+                p = Part()
+                try:
+                    run_case(v["case"], p)
+                except BaseException as e:  # noqa
+                    p.violations.append({"msg": "replay raised %r" % (e,)})
+                if p.violations:
+                    ok = True
+                    break
+            (confirmed if ok else flaky).append(v)
+        return confirmed, flaky
+
+    def finish(self, run_case=None):
         from . import build
 
         t = self.total
@@ -222,6 +243,11 @@ class Check:
                 viols.append({"case": info["first"].get("case"), "msg": f"unlisted finding {fid}: " + str(info["first"].get("msg"))})
         os.makedirs(REPLAY_DIR, exist_ok=True)
         printed = 0
+        viols, flaky = self.confirm(viols, run_case)
+        if flaky:
+            t.extra.setdefault("harness_errors", []).append(
+                "%d violation(s) did not reproduce when their case was re-run (nondeterminism not owned by the harness); first: %s"
+                % (len(flaky), json.dumps(flaky[0])[:600]))
         for v in viols:
             h = okey(v)
             path = os.path.join(REPLAY_DIR, f"{self.pid}-{h}.json")
